@@ -152,10 +152,14 @@ def _unmarshal_method_frame(frame_data: bytes) -> base.Frame:
     except struct.error as error:
         raise exceptions.UnmarshalingException('Unknown', error)
     try:
-        method = commands.INDEX_MAPPING[method_index]()
+        method_class = commands.INDEX_MAPPING[method_index]
     except KeyError:
         raise exceptions.UnmarshalingException(
             'Unknown', 'Unknown method index: {}'.format(str(method_index)))
+    # unmarshal() assigns every attribute, so __init__ is not needed; it
+    # would warn the application (or, with warnings as errors, raise) about
+    # a deprecated method that the peer sent, not the application
+    method = method_class.__new__(method_class)
     try:
         method.unmarshal(frame_data[bytes_used:])
     except (struct.error, ValueError, OverflowError) as error:
